@@ -1,6 +1,12 @@
 package main
 
-import "pdverif/internal/goast"
+import (
+	"go/ast"
+	"go/token"
+	"strings"
+
+	"pdverif/internal/goast"
+)
 
 func init() { gens["C19"] = genC19 }
 
@@ -8,6 +14,32 @@ func init() { gens["C19"] = genC19 }
 // switches (AllocID ; replicate file ; save ; publish), of drPersistStatus (the replicater's error is dropped), of tickDR
 // (with the defining expressions of canSync / hasMajority and the guards of the three transitions), of checkStoreStatus,
 // of updateProgress / estimateProgress / checkRegionRecover, of UpdateConfig and loadDRAutoSync.
+// c19StatusLocal finds, in a method of ModeManager, the local variable defined by `x := drAutoSyncStatus{...}`
+func c19StatusLocal(f *goast.File, fn string) string {
+	fd, err := f.Func("ModeManager", fn)
+	if err != nil {
+		return ""
+	}
+	name := ""
+	ast.Inspect(fd.Body, func(n ast.Node) bool {
+		as, ok := n.(*ast.AssignStmt)
+		if !ok || as.Tok != token.DEFINE || len(as.Lhs) != 1 || len(as.Rhs) != 1 {
+			return true
+		}
+		cl, ok := as.Rhs[0].(*ast.CompositeLit)
+		if !ok {
+			return true
+		}
+		if id, ok := cl.Type.(*ast.Ident); ok && id.Name == "drAutoSyncStatus" {
+			if l, ok := as.Lhs[0].(*ast.Ident); ok && name == "" {
+				name = l.Name
+			}
+		}
+		return true
+	})
+	return name
+}
+
 func genC19(repo string) (string, error) {
 	var o out
 	f, err := goast.Load(repo, "server/replication/replication_mode.go")
@@ -28,9 +60,28 @@ func genC19(repo string) (string, error) {
 			"drTotalRegion", "drSampleTotalRegion", "drSampleRecoverCount")}
 	for _, fn := range []string{"drSwitchToAsyncWithLock", "drSwitchToSyncRecoverWithLock", "drSwitchToSync", "drPersistStatus", "tickDR",
 		"checkStoreStatus", "updateProgress", "estimateProgress", "checkRegionRecover", "UpdateConfig", "loadDRAutoSync", "drCheckAsyncTimeout"} {
-		if err := o.skeleton(f, "ModeManager", fn, "skel_"+fn, opt); err != nil {
+		// the local variable that holds the new status (`dr := drAutoSyncStatus{...}`) is recorded under the canonical
+		// name "status": renaming a local is not a change of the structure the model was written against
+		local := c19StatusLocal(f, fn)
+		fopt := opt
+		if local != "" && local != "dr" {
+			fopt.Assigns = set()
+			for k := range opt.Assigns {
+				fopt.Assigns[k] = true
+			}
+			fopt.Assigns[local] = true
+		}
+		var tmp out
+		if err := tmp.skeleton(f, "ModeManager", fn, "skel_"+fn, fopt); err != nil {
 			return "", err
 		}
+		txt := tmp.sb.String()
+		if local != "" {
+			txt = strings.ReplaceAll(txt, "Assign "+goast.Q(local)+" ", "Assign "+goast.Q("status")+" ")
+			txt = strings.ReplaceAll(txt, goast.Q("= "+local), goast.Q("= status"))
+			txt = strings.ReplaceAll(txt, "("+local+")", "(status)")
+		}
+		o.sb.WriteString(txt)
 	}
 	if err := c14Guards(&o, f, "ModeManager", "tickDR", "guards_tickDR"); err != nil {
 		return "", err
